@@ -111,7 +111,12 @@ def gen_select_one(rng):
     inc = pick(SUITE_ARGS, 0.35)
     exs = pick(SUITE_ARGS, 0.3)
     ex = pick(['a', 'b', 'p:a', 'q:a', 'q:b', 'zz', 'p:c'], 0.3)
-    ar = pick(['a', 'b', 'c', 'q:a', 'p:a', 'q:', 'p:', ':a', '*', ':', 'zz', 'q:zz', 'd'], 0.35)
+    ar = pick(['a', 'b', 'c', 'q:a', 'p:a', 'q:', 'p:', ':a', '*', ':', 'zz', 'q:zz', 'd'], 0.3)
+    if rng.random() < 0.25:
+        # overlapping test-name arguments: exact + glob, `proj:` + name, the same name twice, ...
+        n0 = rng.choice(names[:max(nt, 1)])
+        ar = SEP2.join(rng.choice([[n0, '*'], [n0, n0], ['p:' + n0, n0, '?'], ['p:', n0], [':' + n0, n0, 'q:*'],
+                                   ['*', '?'], [n0, '*:' + n0], ['p:*', 'q:*', n0], [n0[0] + '*', n0]]))
     sl = ''
     if rng.random() < 0.5:
         k = rng.randint(1, 6)
@@ -186,6 +191,21 @@ def oracle_case(fn, a, ri, slice_of):
         bad = O.trace_clauses([c == 'T' for c in a[0]], int(a[1]), evl, cut)
         bad += O.tally_clauses([O.NAME[r] for r in results], [int(x) for x in cnts.split(',')], int(ex))
         out += [('scheduler run %s: %s' % (json.dumps(a), b), {'events': evs.split(SEP2), 'failure': b}) for b in bad]
+    if fn == 'select' and not ri.startswith('EXC'):
+        tests = []
+        for t in a[6:]:
+            f = t.split(SEP2)
+            tests.append((f[0], f[1], f[2].split(SEP3) if len(f) > 2 and f[2] else []))
+        got = None if ri == 'ERR' else [tuple(x.split(':', 1)) for x in ri[1:].split(SEP2)] if ri[1:] else []
+        lst = lambda x: x.split(SEP2) if x else []
+        if len({(p_, n_) for n_, p_, _ in tests}) == len(tests):
+            want = O.independent_selection(tests, a[0], lst(a[1]), lst(a[2]), lst(a[3]), lst(a[4]),
+                                           tuple(int(x) for x in a[5].split('/')) if a[5] else None)
+            cmd = {'--suite': lst(a[1]), '--no-suite': lst(a[2]), '--exclude': lst(a[3]), 'names': lst(a[4]), '--slice': a[5]}
+            if got is not None and len(set(got)) != len(got):
+                out.append(('get_tests selects a test more than once: %r for %s' % (got, json.dumps(cmd)), {'expected': want, 'got': got}))
+            elif got != want:
+                out.append(('get_tests selects %r, the command line %s selects %r' % (got, json.dumps(cmd), want), {'expected': want, 'got': got}))
     if fn == 'slice' and a[1] == '1' and not ri.startswith('E'):
         n, k = int(a[0]), int(a[2])
         sl = []
@@ -248,6 +268,7 @@ def inprocess(ctx, built, thorough):
     mout = ctx.run_model(mcases, shards=NPROC) if built else None
 
     ntr = 0
+    nviol = {}
     where = {(c[0], tuple(c[1])): i for i, c in enumerate(cases) if c[0] == 'slice'}
     for idx, kind, mi in back:
         fn, a = cases[idx]
@@ -257,6 +278,10 @@ def inprocess(ctx, built, thorough):
         if fn == 'sched' and kind != 'exc':
             ntr += 1
         for what, extra in oracle_case(fn, a, ri, lambda args: impl[where[('slice', tuple(args))]]):
+            nviol[fn] = nviol.get(fn, 0) + 1
+            if nviol[fn] > 2:          # leave room among the written replays for the CLI observations
+                ctx.extra['inprocess_violations_not_listed'] = ctx.extra.get('inprocess_violations_not_listed', 0) + 1
+                continue
             ctx.violation('C12:%s:%s' % (fn, json.dumps(a)), what, dict({'case': [fn, a]}, **extra))
         if kind == 'exc':
             continue
@@ -336,7 +361,7 @@ def run(ctx):
                  'extraction with ExtrOcamlBasic directives only + OCaml + extract/driver.ml (cross-checked in-kernel on a sample each run)',
                  'harness/check_C12.py, harness/c12cli.py generators and harness/impl/c12.py adapter/canonicaliser/oracle',
                  'asyncio (Semaphore, ensure_future, cancellation) by its documented semantics; POSIX O_APPEND atomicity of the event log',
-                 'not modelled: SIGINT/SIGTERM handlers, process-group kill, --setup, --wrapper/--gdb/interactive, fnmatch patterns other than `*`'],
+                 'not modelled: SIGINT/SIGTERM handlers, process-group kill, --setup, --wrapper/--gdb/interactive, fnmatch bracket expressions'],
         assumptions=['Print Assumptions: all property theorems closed under the global context (no axioms)',
                      'the semaphore wake-up order is left open in the model (superset of asyncio FIFO)',
                      'the event log of the test programs is the exact observable trace with results erased, starts logged later and ends logged earlier (a shrink): it is replayed with the stop rules switched off (lax); C12_log_check_sound proves that this accepts every log an admissible run can leave; the stop rules are checked on the exact in-process traces and on the testlog.json timeline',
